@@ -16,7 +16,7 @@
      OSelect ai pos                     : the selected row ids are < n  (always true when the corpus is non-empty:
                                           [select_okb_nonempty]; true for in-range positions: [select_okb_in_range]) *)
 From Coq Require Import Sorted Permutation QArith.
-From SA Require Import Base.Prelude Kernels.Spec Kernels.Linear Codec.Codec Index.Index Index.Index_Spec
+From SA Require Import Base.Prelude Kernels.Spec Kernels.Linear Codec.Codec Codec.Codec_Proofs Index.Index Index.Index_Spec
   Index.Index_Proofs Index.Index_Proofs2 Index.Index_Proofs3 Query.Phrase Query.Phrase_Spec Query.Range Score.BM25
   View.View View.View_Spec View.View_Proofs View.View_Phrase View.Purity View.Purity_Proofs View.View_Phrase2
   View.Purity_Gen.
@@ -297,13 +297,13 @@ End Dom.
    tf / phrase / positions, selects from the view -- which resets the view's handle --, queries the reset view
    again, scores a single term and a phrase on views, copies, warms) are in the domain *)
 Example ex_wf : wf_docs ex_docs.
-Proof. split; [repeat constructor; cbn; lia|rewrite pow28; cbn; lia]. Qed.
+Proof. split; [repeat (apply Forall_cons; [cbn; lia|]); apply Forall_nil|rewrite pow28; cbn; lia]. Qed.
 
 Example ex_in_domain : ops_in_domain ex_docs ex_ops.
 Proof. vm_compute. reflexivity. Qed.
 
 (* a longer history on the same corpus: ranged term frequencies on views, ranged phrases on the root,
-   a three-term phrase on a view of a view, out-of-range selection positions (row 0 is substituted), repeats *)
+   a three-term phrase on a view of a view, an out-of-range selection position (the model substitutes row id 0), repeats *)
 Definition ex_ops2 : list op :=
   [OPhrase 0 [1;2] (Some 0) (Some 2); OPhrase 0 [1;1;2] None None;          (* root: any range, repeated term *)
    OSelect 0 [4;2;0;0;3]; OTf 1 1 (Some 1) None; OPhrase 1 [1;2] None None; ODf 1 2;
@@ -313,7 +313,7 @@ Definition ex_ops2 : list op :=
 
 Example ex2_in_domain : ops_in_domain ex_docs ex_ops2 /\
   shape_run (shape0 (length ex_docs)) ex_ops2 =
-    [(false, [0;1;2;3;4]); (true, [4;2;0;0;3]); (true, [2;4;0;3;4]); (true, [2;4;0;3;4])].
+    [(false, [0;1;2;3;4]); (true, [4;2;0;0;3]); (true, [2;4;0;3;0]); (true, [2;4;0;3;0])].
 Proof. vm_compute. split; reflexivity. Qed.
 
 (* the check is not trivially true: ranged or repeated-term phrases ON A VIEW, and selections on an empty
